@@ -14,7 +14,7 @@ pub const INDS: &[&str] = &[
     "CommodityChannelIndex", "MoneyFlowIndex", "Minimum", "Maximum",
 ];
 /// (new regimes are appended: replay files store the index)
-pub const REGIMES: &[&str] = &["walk", "alt", "spike", "plateau", "saw", "ticks", "quiet", "iid"];
+pub const REGIMES: &[&str] = &["walk", "alt", "spike", "plateau", "saw", "ticks", "quiet", "iid", "hush"];
 
 /// one value of the band [m, 1000·m] under a regime
 pub fn nextval(rng: &mut Rng, regime: &str, i: usize, m: f64, prev: f64) -> f64 {
@@ -43,6 +43,16 @@ pub fn nextval(rng: &mut Rng, regime: &str, i: usize, m: f64, prev: f64) -> f64 
         // largest magnitude, so a mis-placed, mis-weighted or double-counted element moves the statistic by far more
         // than τ(t)·M even at t = 2^24 (τ = 7e-5)
         "iid" => lo + (hi - lo) * rng.unit(),
+        // like "quiet", but the calm stretch has a relative dispersion of 3e-5 (a 150.00 instrument moving in 0.0075
+        // ticks): far above rounding noise (variance 4e-10·M² vs tau <= 1e-10 early in the run), far below anything a
+        // "noise floor" keyed on the price level would keep — and what such a floor discards never comes back
+        "hush" => {
+            if (i / 500) % 2 == 0 {
+                if i % 2 == 0 { lo * (1.0 + rng.unit() * 1e-3) } else { hi * (1.0 - rng.unit() * 1e-3) }
+            } else {
+                lo * 730.0 * (1.0 + (rng.unit() - 0.5) * 1e-4)
+            }
+        }
         _ => lo + (hi - lo) * ((i % 97) as f64 / 97.0),
     };
     v.max(lo).min(hi)
@@ -458,4 +468,4 @@ pub fn generate(r: &mut Runner) {
     }
 }
 
-pub const RULE: &str = "9 indicators × 8 regimes (random walk, alternating extremes of the band [m, 1000m], spikes, plateaus, saw-tooth, tick-quoted walk on 16 levels with ties everywhere, violent/quiet alternation with 1e-8 jitter, independent uniform draws over the band) × periods from {1, 2..10, 11..100, 101..1000, 1000}, two thirds of those > 2 moved to a nearby period coprime to 10 (it divides no round count; the rest includes powers of two) × m from {1e-3,1e-2,1,50,1e3,1e6}; one stream of 2^20+2n+42 (quick; 10^5 for MAD/CCI with n > 64) / 2·10^6 (thorough, 3 repetitions) consecutive inputs without reset each, regenerated from the seed stored in the case; a third of the cases (every indicator in at least two regimes) first run a prior session of 1..3n+50 inputs closed by reset() on the same instance (t, M and the window restart at the reset). Outputs are compared with a from-scratch double-double evaluation of the harness's own copy of the window at the first 2n+2 steps, at 400 evenly spaced steps and at the end; MeanAbsoluteDeviation, CCI and MFI in addition from scratch at EVERY step of [N-1, N+2n+2] for every round update count N (all powers of two 2^10..2^20 and 10^3, 5·10^3, …, 10^6; 2·10^6 is the end of a thorough run) — a hidden update counter firing there is observed even if its effect heals after n steps; SMA, WMA, SD (variance), BB, Minimum, Maximum are compared at EVERY step of the run with exact running double-double evaluations of the window (Σx, Σx², Σi·x_i updated in 106-bit arithmetic, sliding extremes by monotonic deques; themselves cross-checked against the from-scratch evaluation at the sampled steps), so a counter of ANY interval is observed for them. Tolerances: tau(t)·M; variances for SD and BB; exact for Minimum/Maximum; CCI when c <= 1e6; MFI when c <= 1000; SD >= 0 and not NaN at EVERY step. The known WMA drift (first exceedance of tau·M by at most 2×, reported as drift-marginal) does not end a run: the run continues and from there on a jump of WMA's signed error by more than tau·M/4 in one step is a failure (rounding moves it by < tau·M/100 per step). Every case non-trivial (thousands of wrap-arounds).";
+pub const RULE: &str = "9 indicators × 9 regimes (random walk, alternating extremes of the band [m, 1000m], spikes, plateaus, saw-tooth, tick-quoted walk on 16 levels with ties everywhere, violent/quiet alternation with 1e-8 jitter, independent uniform draws over the band, violent/hushed alternation with a calm relative dispersion of 3e-5) × periods from {1, 2..10, 11..100, 101..1000, 1000}, two thirds of those > 2 moved to a nearby period coprime to 10 (it divides no round count; the rest includes powers of two) × m from {1e-3,1e-2,1,50,1e3,1e6}; one stream of 2^20+2n+42 (quick; 10^5 for MAD/CCI with n > 64) / 2·10^6 (thorough, 3 repetitions) consecutive inputs without reset each, regenerated from the seed stored in the case; a third of the cases (every indicator in at least two regimes) first run a prior session of 1..3n+50 inputs closed by reset() on the same instance (t, M and the window restart at the reset). Outputs are compared with a from-scratch double-double evaluation of the harness's own copy of the window at the first 2n+2 steps, at 400 evenly spaced steps and at the end; MeanAbsoluteDeviation, CCI and MFI in addition from scratch at EVERY step of [N-1, N+2n+2] for every round update count N (all powers of two 2^10..2^20 and 10^3, 5·10^3, …, 10^6; 2·10^6 is the end of a thorough run) — a hidden update counter firing there is observed even if its effect heals after n steps; SMA, WMA, SD (variance), BB, Minimum, Maximum are compared at EVERY step of the run with exact running double-double evaluations of the window (Σx, Σx², Σi·x_i updated in 106-bit arithmetic, sliding extremes by monotonic deques; themselves cross-checked against the from-scratch evaluation at the sampled steps), so a counter of ANY interval is observed for them. Tolerances: tau(t)·M; variances for SD and BB; exact for Minimum/Maximum; CCI when c <= 1e6; MFI when c <= 1000; SD >= 0 and not NaN at EVERY step. The known WMA drift (first exceedance of tau·M by at most 2×, reported as drift-marginal) does not end a run: the run continues and from there on a jump of WMA's signed error by more than tau·M/4 in one step is a failure (rounding moves it by < tau·M/100 per step). Every case non-trivial (thousands of wrap-arounds).";
